@@ -1,5 +1,5 @@
 """C14 - helper tables are exhaustive w.r.t. every shipped grammar; leaf-category safety of the helpers."""
-from ..rules import gr, tc, dar
+from ..rules import gr, tc, dar, treer
 
 
 def check(ctx, rep):
@@ -13,4 +13,6 @@ def check(ctx, rep):
     gr.gr_8c(ctx, rep)
     tc.tc_sites(ctx, rep, 'parso/python/tree.py', 'TC-1')
     dar.da_rule(ctx, rep, ['parso/python/tree.py'])
+    # helper results memoised on the tree (used names, and whatever is added later) are reset by the incremental parser
+    treer.tree_6(ctx, rep)
     rep.note('Not decided: the comparison with CPython\'s ast over all programs.')
